@@ -150,6 +150,56 @@ PROPS["C19"]["level_text"] = (
     "violation of C19 as stated). Real goroutine interleavings (concurrent PushMetrics, flusher, per-stream receiver "
     "goroutines, gRPC) are only sampled by h_recv; the theorems are about every interleaving of the model.")
 
+PROPS["C12"] = {
+    "lean_modules": ["Stef.Props.C12"],
+    "harness": [{"bin": "h_schema", "args": ["c12"]}],
+    "rule": ("cases = input texts given to the real idl.Parse and (ASCII ones) replayed on the Lean model Stef.Idl.parse: all "
+             "checked-in .stef files, every single-token deletion / duplication / replacement (whole token vocabulary) and every "
+             "token prefix of a schema covering all grammar productions and of the small checked-in schemas, sampled token and "
+             "byte mutations of the large ones and of grammar-generated schemas, token soups, random ASCII, non-ASCII (real code "
+             "only); a case is non-trivial when the parser gets past the package clause (an accepted schema with at least one "
+             "struct, a panic, or an error other than at the package clause); distinct by hash of the input text"),
+    "trusted_base": COMMON_TB + [
+        "Stef/Idl.lean is a hand transcription of go/pkg/idl/{lexer,parser,utils}.go and of ResolveRefs/computeRecursive/"
+        "PruneUnused in go/pkg/schema/schema.go, tied by h_schema: outcome class, canonical schema dump (incl. recursion flags), "
+        "error line:col:offset and message class must agree for every ASCII input",
+        "ASCII restriction of unicode.IsLetter/IsDigit/IsSpace in the model; other runes are exercised on the real code only",
+        "error message texts are compared by class (the type name in 'unknown type' depends on Go map order)",
+    ],
+    "assumptions": ["bufio.Reader.ReadRune over a bytes.Buffer never fails (invalid UTF-8 yields U+FFFD)",
+                    "strconv.ParseUint(s, 0, 64) as modelled in Stef/Idl.lean (parseUint) on the lexer's number alphabet"],
+}
+PROPS["C12"]["level_text"] = (
+    "Theorems over the transcribed lexer+parser+post-processing (Stef/Props/C12.lean): accepted schemas are well-formed, errors "
+    "carry a position inside the input, exact characterisation of the one reachable panic (negation of the full no-panic "
+    "statement proved from the witness, partial theorem under the excluding hypothesis); tied to go/pkg/idl by op-for-op "
+    "differential runs (outcome, schema dump, error position and class).")
+
+PROPS["C13"] = {
+    "lean_modules": ["Stef.Props.C13"],
+    "harness": [{"bin": "h_schema", "args": ["c13"]}],
+    "rule": ("cases = schemas (all checked-in .stef files, explicit witnesses, grammar-generated schemas with structs, oneofs, "
+             "multimaps, enums, arrays, optional, dict modifiers, several roots, recursion; pass A without the triggers of recorded "
+             "findings, pass B with them) run through the real Parse -> PrettyPrint -> Parse and NewWireSchema for every root, and "
+             "count lists / byte strings run through the real Deserialize -> Serialize; the generated otelstef package is compared "
+             "with NewWireSchema(otel.stef) and with the count order its Encoder.Init code fetches (read off the Go source); every "
+             "op is replayed on the Lean model; a case is non-trivial when the schema keeps at least one struct / the count list is "
+             "non-empty; distinct by hash"),
+    "trusted_base": COMMON_TB + [
+        "Stef/SchemaPrint.lean, Stef/WireSchema.lean are hand transcriptions of PrettyPrint, NewWireSchema/structCountTree, "
+        "Serialize/Deserialize (binary.ReadUvarint incl. overflow) tied by h_schema (printed text, counts and bytes must agree)",
+        "initCounts models the generated Init order from stefc/templates/go/*.tmpl; tied for otelstef by simulating the Init "
+        "call structure read from go/otel/otelstef/*.go with go/ast",
+        "maxStructCount is regenerated from wireschema.go (Stef/Gen/Consts.lean)",
+    ],
+    "assumptions": ["encoding/binary AppendUvarint/ReadUvarint as modelled in Stef/WireSchema.lean"],
+}
+PROPS["C13"]["level_text"] = (
+    "Theorems (Stef/Props/C13.lean): Deserialize(Serialize w) = w for every list of at most 1024 counts below 2^64 and refusal "
+    "above the limit; NewWireSchema order = generated Init consumption order; print->parse: negation of the full statement from "
+    "the witnesses of the recorded PrettyPrint defects and partial theorems; tied to go/pkg/schema and the generated otelstef "
+    "code by op-for-op differential runs.")
+
 HOOK_COMMITS = ["dfe47e0", "f85f827"]
 NOT_CLAIMED = {
     "C11": ("byte equality between checked-in files and the output of text/template + gofmt (and the Java templates): "
